@@ -9,7 +9,7 @@
    decided by the bit-exact correspondence and the falsifier. *)
 From Coq Require Import ZArith List String Bool.
 From Hexital Require Import Base.Prelude Base.Num Model.Manager Model.Candle Model.Readings Model.Engine
-  Proofs.EngineProofs Proofs.CausalProofs Proofs.AnalysisProofs Proofs.ComposeProofs Proofs.CausalMore Proofs.CausalWin Model.Analysis.
+  Proofs.EngineProofs Proofs.CausalProofs Proofs.AnalysisProofs Proofs.ComposeProofs Proofs.PipelineProofs Proofs.ComposeHA Proofs.CausalMore Proofs.CausalWin Model.Analysis.
 Import ListNotations.
 Local Open Scope Z_scope.
 
@@ -158,3 +158,20 @@ Theorem C01_obligations_VWMA : forall (O : NumOps) (I : ind O) period,
   (forall rec st i, calc_reading O rec I st i = (v <- pure_calc O I st i ;; Ok (v, st))) /\ Causal O I (pure_calc O I).
 Proof. intros O I period K Hp Ht Hn. split; [intros; eapply vwma_pure; exact K|eapply vwma_causal; eassumption]. Qed.
 Print Assumptions C01_obligations_VWMA.
+
+(* ... and with Heikin-Ashi conversion between the collapse and the indicator: D is the
+   indicator's store after the raw stream xs (canonical readings over the converted
+   buckets); appending ys runs the manager pipeline on D ++ ys and calculates; the result is
+   the batch result over the converted buckets of the whole raw stream *)
+Theorem C01_append_on_timeframe_ha :
+  forall (O : NumOps) (I : ind O) (calc : store O -> Z -> res (val O)),
+  i_subs O I = [] /\ i_managed O I = [] ->
+  (forall rec st i, calc_reading O rec I st i = (v <- calc st i ;; Ok (v, st))) ->
+  Causal O I calc ->
+  forall (tf : Z) (xs ys : list (cd (payload O))) (D : store O),
+  0 < tf -> sorted (payload O) (xs ++ ys) -> pristine O (xs ++ ys) -> Forall (fresh O I) (xs ++ ys) ->
+  canon O I calc (convert O (resample (payload O) (Candle.merge O) tf xs)) = Ok D ->
+  exists M, pipe O tf (D ++ ys) = Ok M /\
+            calculate O I M = canon O I calc (convert O (resample (payload O) (Candle.merge O) tf (xs ++ ys))).
+Proof. intros O I calc Hl Hp Hc tf xs ys D Htf Hs Hpr Hf HD. eapply append_on_timeframe_ha; eassumption. Qed.
+Print Assumptions C01_append_on_timeframe_ha.
